@@ -104,7 +104,7 @@ def check_case(ctx, case):
 
 
 def run(ctx):
-    for k in range(ctx.n(30, 300)):
+    for k in range(ctx.n(50, 400)):
         case = c14.gen(ctx)
         case['estimator'] = 'matheron'
         case['model'] = str(ctx.rng.choice(['sum', 'product', 'product-sum', 'product-sum']))
